@@ -454,10 +454,26 @@ def gen_acq_cases(rng, n):
     return cases
 
 
+def gen_draw_cases(rng, n):
+    """`reorder_indices(original_order, specific_order)`: subsets, permutations, duplicates, foreign elements."""
+    cases = []
+    for _ in range(n * 3):
+        orig = rng.sample(range(0, 8), rng.randint(0, 6))
+        kind = rng.random()
+        if kind < 0.5:
+            spec = rng.sample(orig, rng.randint(0, len(orig)))
+        elif kind < 0.7 and orig:
+            spec = [rng.choice(orig) for _ in range(rng.randint(1, 4))]          # duplicates are kept
+        else:
+            spec = [rng.randint(0, 9) for _ in range(rng.randint(0, 4))]         # may name a row that is not occupied
+        cases.append(('Draw_reorder_indices', [orig, spec]))
+    return cases
+
+
 ENGINE_CALLS = {'Detector_to_stim', 'Observable_to_stim', 'CoordinateShift_to_stim'}
 
 GENERATORS = {'kernels': gen_kernel_cases, 'ident': gen_ident_cases, 'timing': gen_timing_cases, 'export': gen_export_cases,
-              'acq': gen_acq_cases}
+              'acq': gen_acq_cases, 'draw': gen_draw_cases}
 
 
 def run_cases(cases):
